@@ -11,6 +11,8 @@ structure DSt where
   /-- slot ↦ id of every user object allocated so far -/
   slots : List (Nat × Id) := []
   cfg : Cfg := Cfg.fixed
+  /-- `stat` mode of the driver: print the branch / outcome tags of each op instead of the dump -/
+  stat : Bool := false
 
 def slotId (d : DSt) (slot : Nat) : Option Id :=
   match d.slots.find? (·.1 == slot) with
@@ -119,6 +121,124 @@ def failFlag : List String → Option Bool
   | ["F"] => some true
   | _ => none
 
+/-! ## branch / outcome tags (coverage statistics of the generator; not compared with the code) -/
+
+/-- index of the first limit on the way up that would refuse `d` more bytes -/
+def refusingLevel (cfg : Cfg) (s : State) (p : Option Id) (d : Int) : Option Nat :=
+  let ls := limitsAbove cfg s.fuel s (orNull s p)
+  (ls.zipIdx.find? fun (l, _) => !fits s d l).map (·.2)
+
+def depthTag (cfg : Cfg) (s : State) (p : Option Id) : String :=
+  let n := (limitsAbove cfg s.fuel s (orNull s p)).length
+  if n == 0 then "unlimited" else s!"under{min n 3}limits"
+
+def levelTag (cfg : Cfg) (s : State) (p : Option Id) (d : Int) : String :=
+  match refusingLevel cfg s p d with
+  | some k => s!"refused@level{min k 3}"
+  | none => "refused"
+
+/-- plain objects whose parent changed during the op: thrown (their destructor refused in this op)
+or promoted to a referencing context -/
+def moveTags (s s' : State) (evs : List Event) : List String :=
+  (ids s).foldl (fun acc z =>
+    match s.get z, s'.get z with
+    | some a, some b =>
+      if a.kind == .plain && a.parent != b.parent then
+        (if evs.contains (.dtorRefuse z) then "move:throw_child" else
+          if b.refs.length + 2 ≤ a.refs.length then "move:promotion-repeated-or-with-reference-loss"
+          else if b.refs.length < a.refs.length then "move:promotion" else "move:reparent") :: acc
+      else acc
+    | _, _ => acc) []
+
+def opTags (cfg : Cfg) (s : State) (op : Op) (s' : State) (rc : Int) (evs : List Event) : List String :=
+  let nRefuse := (evs.filter fun e => match e with | .dtorRefuse _ => true | _ => false).length
+  let nRel := (evs.filter fun e => match e with | .release _ => true | _ => false).length
+  let common := (if nRefuse > 0 then [s!"dtor-refusals-in-op:{min nRefuse 3}"] else []) ++
+    (if nRel > 1 then [s!"releases-in-op:{if nRel > 8 then "9+" else if nRel > 3 then "4-8" else "2-3"}"] else []) ++
+    moveTags s s' evs
+  let own := match op with
+    | .alloc p sz _ fl =>
+      if rc == 0 then ["alloc:ok:" ++ depthTag cfg s p]
+      else if sz > MAXLEN then ["alloc:toobig"]
+      else if fl && admits cfg s p sz then ["alloc:enomem:" ++ depthTag cfg s p]
+      else ["alloc:" ++ levelTag cfg s p (totalSize sz)]
+    | .free o =>
+      (match s.get o with
+        | some ob =>
+          if ob.refs != [] then
+            (if rc == 0 then ["free:with-refs:drops-last-reference"] else
+              if ob.parent == none || ob.parent == s.nullCtx then ["free:with-refs:toplevel-denied"]
+              else ["free:with-refs:other-holders-denied"])
+          else if rc == 0 then
+            [if ob.children.isEmpty then "free:ok:leaf" else "free:ok:subtree"] ++
+            (if (s'.get o).isSome then ["free:answered0-but-alive"] else [])
+          else ["free:destructor-refused"]
+        | none => ["free:dead"])
+    | .freeChildren o =>
+      (match s.get o with
+        | some ob =>
+          ["fchildren"] ++
+          (if ob.children.any (fun c => match s.get c with | some cb => cb.refs != [] | none => false)
+            then ["fchildren:referenced-child"] else []) ++
+          (if ob.children.any (fun c => match s.get c with | some cb => isRef cb | none => false)
+            then ["fchildren:holds-references"] else []) ++
+          (if ob.hasLim then ["fchildren:keeps-limit-chunk"] else [])
+        | none => ["fchildren:dead"])
+    | .reference ctx o fl =>
+      if rc == 0 then ["ref:ok:" ++ depthTag cfg s ctx]
+      else if fl && admits cfg s ctx REFSIZE then ["ref:enomem"] else ["ref:" ++ levelTag cfg s ctx (totalSize REFSIZE)]
+    | .unlink ctx o =>
+      (match s.get o with
+        | some ob =>
+          if ob.parent == orNull s ctx then
+            (if ob.refs == [] then [if rc == 0 then "unlink:last-link" else "unlink:last-link:refused"]
+             else ["unlink:primary-with-refs:promote"])
+          else if rc == 0 then ["unlink:drops-reference"] else ["unlink:not-a-holder"]
+        | none => ["unlink:dead"])
+    | .steal np o =>
+      (match s.get o with
+        | some ob =>
+          if rc != 0 then [if ob.refs != [] then "steal:has-refs-denied" else "steal:cx-mismatch-denied"]
+          else if orNull s np == ob.parent then ["steal:same-parent"]
+          else ["steal:ok:" ++ (if hasUse s ob.parent then "from-limited" else "from-unlimited") ++ "-" ++
+            (if hasUse s (orNull s np) then "to-limited" else "to-unlimited")]
+        | none => ["steal:dead"])
+    | .reparent oldp np o =>
+      (match s.get o with
+        | some ob =>
+          if rc != 0 then ["reparent:denied"]
+          else if orNull s oldp == ob.parent then ["reparent:object"] else ["reparent:reference-chunk"]
+        | none => ["reparent:dead"])
+    | .realloc p o sz fl =>
+      (match s.get o with
+        | some ob =>
+          if sz > MAXLEN then ["realloc:toobig"]
+          else if sz == 0 then ["realloc:size0-unlinks"]
+          else if ob.refs != [] then ["realloc:has-refs-denied"]
+          else if sz == ob.size then ["realloc:same-size"]
+          else
+            let dir := if sz > ob.size then "grow" else "shrink"
+            let lim := if hasUse s ob.parent then "limited" else "unlimited"
+            if rc == 0 then [s!"realloc:{dir}:{lim}:ok"]
+            else if fl then [s!"realloc:{dir}:{lim}:enomem-rollback"]
+            else [s!"realloc:{dir}:" ++ levelTag cfg s ob.parent ((totalSize sz : Int) - (totalSize ob.size : Int))]
+        | none => ["realloc:dead"])
+    | .setDtor _ d =>
+      [match d with | .none => "dtor:none" | .accept => "dtor:accept" | .refuse _ => "dtor:refuse" | .reenter => "dtor:reenter"]
+    | .setLimit o mx _ =>
+      (match s.get o with
+        | some ob =>
+          let has := ob.hasLim && (findLim s ob.children).isSome
+          if mx == 0 then [if has then "limit:lift" else "limit:lift-nothing"]
+          else if has then ["limit:reconfigure"]
+          else if rc != 0 then ["limit:new:denied"]
+          else [if ob.children.isEmpty then "limit:new:empty-context" else "limit:new:populated-context"] ++
+            (if hasUse s (some o) then ["limit:nested-under-limit"] else [])
+        | none => ["limit:dead"])
+    | .nullOn _ => [if s.nullCtx.isSome then "nullon:already" else "nullon"]
+    | .nullOff => [if s.nullCtx.isSome then "nulloff" else "nulloff:not-on"]
+  own ++ common
+
 /-- apply a model op, print `rc=… dump` -/
 def doOp (d : DSt) (op : Op) (newSlot : Option Nat := none) : DSt × String :=
   let id := d.s.heap.length
@@ -130,11 +250,12 @@ def doOp (d : DSt) (op : Op) (newSlot : Option Nat := none) : DSt × String :=
     | none => d'
   -- dump names objects freed in this op by the slots they had
   let evs := s'.log.take (s'.log.length - n0)
-  (d', s!"rc={rc} " ++ dump d' evs)
+  if d.stat then (d', "tags " ++ " ".intercalate (opTags d.cfg d.s op s' rc evs))
+  else (d', s!"rc={rc} " ++ dump d' evs)
 
 def stepLine (d : DSt) (line : String) : DSt × String :=
   match words line with
-  | ["#case"] => ({ cfg := d.cfg }, "#case")
+  | ["#case"] => ({ cfg := d.cfg, stat := d.stat }, "#case")
   | "alloc" :: slot :: par :: size :: cx :: rest =>
     match slot.toNat?, optSlot d par, size.toNat?, cx.toNat?, failFlag rest with
     | some sl, some p, some sz, some c, some fl =>
